@@ -444,7 +444,26 @@ impl Property for C18 {
                 s.apply(u);
             }
             let live: Vec<L> = s.args_by_id().iter().map(|(_, l)| *l).collect();
-            if live.len() >= 2 {
+            let comps = if live.len() <= 14 { s.to_ref().0.components() } else { vec![] };
+            if comps.len() >= 2 && rng.bool() {
+                // one member of every component (S18h: several components that reject their member)
+                let (af, pos_labels, _) = s.to_ref();
+                let grounded = af.grounded();
+                c.queries[0].args.clear();
+                for m in &comps {
+                    let members: Vec<usize> = (0..pos_labels.len()).filter(|p| m >> p & 1 == 1).collect();
+                    // mostly a member outside the grounded extension: the component may well reject it
+                    let outside: Vec<usize> = members.iter().copied().filter(|p| grounded >> p & 1 == 0).collect();
+                    let p = if !outside.is_empty() && rng.chance(2, 3) { *rng.pick(&outside) } else { *rng.pick(&members) };
+                    c.queries[0].args.push(pos_labels[p]);
+                }
+                // half of these go to the two-calls-per-component solvers
+                if rng.bool() {
+                    c.sem = *rng.pick(&[Sem::ST, Sem::CO]);
+                    c.queries[0].kind = QKind::DC;
+                    c.enc = tame_encoder(*rng.pick(&encoders_for(c.sem, QKind::DC)), &s);
+                }
+            } else if live.len() >= 2 {
                 for _ in 0..rng.range(1, 3) {
                     c.queries[0].args.push(*rng.pick(&live));
                 }
@@ -522,7 +541,11 @@ impl Property for C18 {
                     _ => bound(&af.restrict(union).0, eff, case.enc),
                 };
                 max_bound = max_bound.max(merged);
-                sum_bound += merged;
+                // CO / ST: "at most two calls per component" also bounds the total of a list query (S18h);
+                // the other semantics may search the union in addition to the components
+                if !matches!(eff, Sem::CO | Sem::ST) {
+                    sum_bound += merged;
+                }
             }
         }
         let budget = 20 * sum_bound.max(max_bound) + 2000;
@@ -625,7 +648,7 @@ impl Property for C18 {
         }
     }
     fn rule(&self) -> String {
-        "case = one query (SE, a single argument, or in about 1 run in 8 a list of 2..4 arguments judged against the bound of the union of its members' components) of a SAT-based static solver configuration on a generated framework (60 % single-component), answered over SimSat under adversarial oracle policies (MinTrue: longest grow-until-UNSAT chains; Biased; Uniform). SimSat attributes calls to solver instances (one per component per search); RefSem supplies |base| (conflict-free / admissible / complete sets according to the encoder) and |PR| per component. Checked post hoc over the event log: calls per instance <= max over components of the stated bound, total calls <= sum of the bounds, and for PR/ID no projected model returned twice within one search; online: hard budget 20*bound+2000 calls (a non-terminating loop becomes a finite replayable failure). Non-trivial = >= 2 arguments and >= 2 SAT calls; distinct = distinct case".into()
+        "case = one query (SE, a single argument, or in about 1 run in 8 a list of 2..6 arguments, half of them one member of every component, judged against the bound of the union of its members' components; for CO/ST the total stays at two calls per component) of a SAT-based static solver configuration on a generated framework (60 % single-component), answered over SimSat under adversarial oracle policies (MinTrue: longest grow-until-UNSAT chains; Biased; Uniform). SimSat attributes calls to solver instances (one per component per search); RefSem supplies |base| (conflict-free / admissible / complete sets according to the encoder) and |PR| per component. Checked post hoc over the event log: calls per instance <= max over components of the stated bound, total calls <= sum of the bounds, and for PR/ID no projected model returned twice within one search; online: hard budget 20*bound+2000 calls (a non-terminating loop becomes a finite replayable failure). Non-trivial = >= 2 arguments and >= 2 SAT calls; distinct = distinct case".into()
     }
     fn assumptions(&self) -> Vec<String> {
         vec![
